@@ -213,11 +213,11 @@ M('C17', 'speed-moves-time', ANA, "    if dt == 0:\n        return NAN\n    else
 T('C17', 'twin-speed-rename', ANA, "    ds = track.getObs(i + 1).position.distance2DTo(track.getObs(i - 1).position)\n    dt = track.getObs(i + 1).timestamp - track.getObs(i - 1).timestamp", "    nxt = track.getObs(i + 1)\n    prv = track.getObs(i - 1)\n    ds = nxt.position.distance2DTo(prv.position)\n    dt = nxt.timestamp - prv.timestamp")
 
 # ---------------------------------------------------------------- C18
-M('C18', 'dtw-drop-u', CMP, "            T[i,j] = weight(min(ul, min(u, l)), D[i,j])", "            T[i,j] = weight(min(ul, l), D[i,j])", 'C18.R')
-M('C18', 'dtw-border-ptr', CMP, "        M[0,j] = 0 + (j-1)*1j", "        M[0,j] = 0 + j*1j", 'C18.B')
-M('C18', 'fdtw-successor-distance', CMP, "            dist = _distance(track2.getObs(i+1).position, track1.getObs(j+1).position, dim)\n            _update_node(F, T, (i+1, j+1), weight(T[i,j], dist), V, A, node)", "            dist = _distance(track2.getObs(i).position, track1.getObs(j).position, dim)\n            _update_node(F, T, (i+1, j+1), weight(T[i,j], dist), V, A, node)", 'C18.F')
-M('C18', 'p-inf-sum', CMP, "        weight = lambda A, B : max(A, B) ", "        weight = lambda A, B : A + B ", 'C18.P')
-M('C18', 'score-wrong-cell', CMP, "    output.score = T[-1, -1]", "    output.score = T[0, -1]", 'C18.B')
+M('C18', 'dtw-drop-u', CMP, "            T[i,j] = weight(min(ul, min(u, l)), D[i,j])", "            T[i,j] = weight(min(ul, l), D[i,j])", 'C18.G')
+M('C18', 'dtw-border-ptr', CMP, "        M[0,j] = 0 + (j-1)*1j", "        M[0,j] = 0 + j*1j", 'C18.G')
+M('C18', 'fdtw-successor-distance', CMP, "            dist = _distance(track2.getObs(i+1).position, track1.getObs(j+1).position, dim)\n            _update_node(F, T, (i+1, j+1), weight(T[i,j], dist), V, A, node)", "            dist = _distance(track2.getObs(i).position, track1.getObs(j).position, dim)\n            _update_node(F, T, (i+1, j+1), weight(T[i,j], dist), V, A, node)", 'C18.G')
+M('C18', 'p-inf-sum', CMP, "        weight = lambda A, B : max(A, B) ", "        weight = lambda A, B : A + B ", 'C18.G')
+M('C18', 'score-wrong-cell', CMP, "    output.score = T[-1, -1]", "    output.score = T[0, -1]", 'C18.G')
 T('C18', 'twin-dtw-argmin', CMP, "            m = min(ul, min(u, l))\n            if ul == m:\n                M[i,j] = (i-1) + (j-1)*1j\n            elif u == m:\n                M[i,j] = (i-1) + j*1j\n            else:\n                M[i,j] = i + (j-1)*1j",
   "            best = min(min(ul, u), l)\n            if u == best:\n                M[i,j] = (i-1) + j*1j\n            elif l == best:\n                M[i,j] = i + (j-1)*1j\n            else:\n                M[i,j] = (i-1) + (j-1)*1j")
 
